@@ -558,6 +558,11 @@ func c15Wf(s *c15Chart, top bool) bool {
 	if int64(len(s.Values)) > lim || int64(len(s.Schema)) > lim {
 		return false
 	}
+	// ... the files Save itself writes included: with a lowered limit a long Chart.yaml / Chart.lock
+	// (three dependency records) is over it, and the archive is rightly refused on load
+	if c15YamlLen(m) > lim || (s.Lock != nil && c15YamlLen(s.Lock) > lim) {
+		return false
+	}
 	hasReqYaml, hasReqLock := false, false
 	names := map[string]bool{} // one file per name, no name that is also a directory
 	dup := func(n string) bool {
